@@ -19,7 +19,10 @@ LEVEL_NOTE = ("The theorems are about the mathematical QP (Spec/Qp.lean) and the
               "are skipped (counted), as the property states. The static Solver is only run on acyclic inequality-only problems "
               "(it has no equality handling). SPECFAIL messages carry a diagnostic cause= (premature stop confirmed by repeating "
               "solve() on the live solver / multipliers within the solver's own -1e-4 tolerance / other); the verdict itself "
-              "depends only on the certified optimum and the stated tolerance.")
+              "depends only on the certified optimum and the stated tolerance. On the random classes the static solver runs "
+              "under a SIGABRT guard (a failed COLA_ASSERT is recorded as `abort` and reported as SPECFAIL solver-aborted when "
+              "the oracle certified the problem feasible) with leak checking off for that variant; everywhere else an abort is a "
+              "CRASH verdict. Cases 0-3 are fixed witnesses of the defects found on the unchanged library (see known findings).")
 TECHNIQUE = "Lean 4 theorems (KKT sufficiency, uniqueness, checker soundness) + certified exact oracle on real solver outputs"
 DESIGN_REF = "DESIGN.md section 6 C02"
 RULE = ("feasible-by-construction problems (hidden witness placement): exhaustive n<=3 (7 edge states x desired {0,1,2}^n x 2 weight "
